@@ -863,9 +863,18 @@ func (c *syntaxLoader) convertPart(p ast.RhsPart, nonterm *syntax.Nonterm, under
 			// Note: the list below can include entities from a different alternative but
 			// they'll be automatically filtered later on.
 			args.Names = make(map[string][]int)
-			for k, v := range rhs.names {
+			keys := make([]string, 0, len(rhs.names))
+			for k := range rhs.names {
+				keys = append(keys, k)
+			}
+			sort.Strings(keys)
+			for _, k := range keys {
+				v := rhs.names[k]
 				if !c.aliasOptSuffix && len(k) > len(c.optSuffix) && strings.HasSuffix(k, c.optSuffix) {
-					k = strings.TrimSuffix(k, c.optSuffix)
+					// Note: an explicitly spelled name wins over the implied alias of an optional symbol.
+					if base := strings.TrimSuffix(k, c.optSuffix); rhs.names[base] == nil {
+						k = base
+					}
 				}
 				args.Names[k] = v
 			}
